@@ -205,7 +205,7 @@ def generate(rnd, tier):
             elif k < 0.91:
                 op.update({"op": "props"})
             elif k < 0.95:
-                op.update({"op": "pointwise_cm", "x": rnd.choice(thr_idx), "sshape": rnd.choice(["flat", "2d"])})
+                op.update({"op": "pointwise_cm", "x": rnd.choice(thr_idx), "sshape": rnd.choice(["flat", "2d", "labels_col", "labels_row"])})
             else:
                 op.update({"op": "roc", "nb_points": rnd.choice([None, 5, 10]), "x_axis": rnd.choice(["fpr", "fnr", "tar"]),
                            "fnr": rnd.random() < 0.3, "x": rnd.choice(rate_idx)})
@@ -221,8 +221,11 @@ def generate(rnd, tier):
                 op.update({"op": "rate", "name": rnd.choice(RATES), "x": rnd.choice(thr_idx)})
             elif k < 0.85:
                 op.update({"op": "cm", "x": rnd.choice(thr_idx)})
-            else:
+            elif k < 0.93:
                 op.update({"op": "groupwise", "metric": rnd.choice(["fnr", "fpr", "tpr"]), "x": rnd.choice(thr_idx)})
+            else:
+                op.update({"op": "swap"})
+                pool_kinds.append("group")
         else:
             k = rnd.random()
             o = objects[oi] if oi < len(objects) else None
@@ -386,6 +389,10 @@ def evaluate(o, op, args, state, L=None):
         scores = np.concatenate([o.pos, o.neg])
         if op.get("sshape") == "2d" and len(scores) % 2 == 0 and len(scores) > 0:
             labels, scores = labels.reshape(2, -1), scores.reshape(2, -1)
+        elif op.get("sshape") == "labels_col" and len(scores) > 0:
+            labels = labels.reshape(-1, 1)  # e.g. df[["label"]].values next to a flat score column
+        elif op.get("sshape") == "labels_row" and len(scores) > 0:
+            labels = labels.reshape(1, -1)
         state["pw_inputs"] = (labels, scores, M.fingerprint(labels), M.fingerprint(scores))
         return L.pointwise_cm(labels, scores, x, score_class=o.score_class, equal_class=o.equal_class)
     if k == "roc":
@@ -654,6 +661,8 @@ def execute(scn, ctx):
         }[kind]
         if k not in applicable or (k == "group_getitem" and not len(o.groups)):
             continue
+        if k == "pointwise_cm" and (len(o.pos) + len(o.neg)) * max(1, int(np.size(args.get(op.get("x"))))) > 20000:
+            continue  # keeps the per-sample matrix small even if a defective version broadcasts it quadratically
         fired_kinds = []
         if k == "swap":
             probe("swap_alias")
